@@ -238,6 +238,59 @@ func c16() []*Ob {
 				if !collected {
 					c.Violation("errflow:searchStores:append-err", fn.Pos(), "shard errors are no longer collected into the error list that decides completeness")
 				}
+				// ... on every way through the loop body: an iteration that saw an error goes on to the next
+				// response only after it has appended the error
+				var errApps []ssa.Instruction
+				for _, ap := range CallsIn(fn, Callee("builtin.append")) {
+					if IsErrorType(elemType(ap.Common().Args[0])) {
+						for _, a := range ap.Common().Args[1:] {
+							if DerivesFrom(a, isErrField) {
+								errApps = append(errApps, ap.(ssa.Instruction))
+							}
+						}
+					}
+				}
+				for _, b := range fn.Blocks {
+					iff, ok := b.Instrs[len(b.Instrs)-1].(*ssa.If)
+					if !ok {
+						continue
+					}
+					bo, ok := iff.Cond.(*ssa.BinOp)
+					if !ok || !(bo.Op == token.NEQ || bo.Op == token.EQL) || !(IsNilConst(bo.X) || IsNilConst(bo.Y)) {
+						continue
+					}
+					other := bo.X
+					if IsNilConst(bo.X) {
+						other = bo.Y
+					}
+					if !isErrField(other) {
+						continue
+					}
+					lp := InnermostLoop(b)
+					if lp == nil {
+						continue
+					}
+					failed := b.Succs[0]
+					if bo.Op == token.EQL {
+						failed = b.Succs[1]
+					}
+					for _, back := range lp.Header.Preds {
+						if !lp.Blocks[back] || !(back == failed || (failed.Dominates(back) && Reachable(failed, back))) {
+							continue
+						}
+						okApp := false
+						for _, ap := range errApps {
+							if ap.Block() == back || ap.Block().Dominates(back) {
+								okApp = true
+							}
+						}
+						if okApp {
+							c.Site(blockPos(back, iff.Cond.Pos()), "a failed shard's iteration reaches the next response only after its error was collected")
+						} else {
+							c.Violation("errflow:searchStores:iteration-skips-error", blockPos(back, iff.Cond.Pos()), "searchStores can go on to the next shard response after a shard answered with an error without collecting that error: the shard is simply missing from the result, and when other shards delivered data the result is returned as complete (nil error, no partial-response flag)")
+						}
+					}
+				}
 				idx := ErrorResultIndex(fn)
 				for _, rp := range ReturnPaths(fn, idx) {
 					qprs := RetOperand(rp.Ret, 0)
